@@ -43,6 +43,7 @@ ChkGLaws(e) ==
        IN /\ AbsJ(e.G, e.ab) = GAdd(e.G, A, Bp) /\ AbsJ(e.G, e.ba) = AbsJ(e.G, e.ab)
           /\ AbsJ(e.G, e.ab_c) = GAdd(e.G, GAdd(e.G, A, Bp), Cp) /\ AbsJ(e.G, e.a_bc) = AbsJ(e.G, e.ab_c)
           /\ AbsJ(e.G, e.a0) = A /\ AbsJ(e.G, e.z0a) = A
+          /\ ("eqs" \in DOMAIN e => e.eqs = TRUE)          \* == holds between the two sides of every law, whatever their representatives
 \* ---------------------------------------------------------------- C05
 ChkGMul(e) == /\ JacOK(e.G, e.a) /\ JacOK(e.G, e.out) /\ Canon("Fr", e.k)
               /\ LET want == GMul(e.G, FromBE(e.k), AbsJ(e.G, e.a))
@@ -53,6 +54,9 @@ ChkGModLaws(e) ==
        IN /\ AbsJ(e.G, e.spt) = GMul(e.G, BAddMod(s, t, R), A) /\ AbsJ(e.G, e.sp_tp) = AbsJ(e.G, e.spt)
           /\ AbsJ(e.G, e.st) = AbsJ(e.G, e.s_tp)
           /\ (Sampled(e, 4) => AbsJ(e.G, e.st) = GMul(e.G, BMulMod(s, t, R), A))
+          /\ ("mix1" \in DOMAIN e =>                                  \* sP + sP with exactly one summand normalised: (s+s)P
+                 /\ JacOK(e.G, e.mix1) /\ JacOK(e.G, e.mix2) /\ FromBE(e.s2) = BAddMod(s, s, R)
+                 /\ AbsJ(e.G, e.mix1) = GAdd(e.G, GMul(e.G, s, A), GMul(e.G, s, A)) /\ AbsJ(e.G, e.mix2) = AbsJ(e.G, e.mix1))
           /\ AbsJ(e.G, e.zero) = Inf /\ AbsJ(e.G, e.one) = A /\ AbsJ(e.G, e.m1) = GNeg(e.G, A) /\ AbsJ(e.G, e.rm1p_p) = Inf
 \* ---------------------------------------------------------------- C15
 ChkGEq(e) == /\ JacCanon(e.G, e.a) /\ JacCanon(e.G, e.b)
